@@ -12,6 +12,9 @@ import (
 	"strconv"
 	"strings"
 
+	gmsl "github.com/matrix-org/gomatrixserverlib"
+	"github.com/matrix-org/gomatrixserverlib/spec"
+
 	"verif/mc/authgen"
 	"verif/mc/evgen"
 	"verif/mc/harness"
@@ -259,6 +262,81 @@ func runStep(r *harness.Run, c stepCase) (accepted bool, err error) {
 	return true, nil
 }
 
+// ---- (iii) several power-levels events judged through ONE reused checker, as state resolution does
+
+type batchStep struct {
+	Sender string
+	New    pl
+}
+
+type batchCase struct {
+	Version string
+	Old     pl
+	Steps   []batchStep
+	Apply   bool // an accepted event becomes the current power-levels event before the next one is judged
+}
+
+func runBatch(r *harness.Run, c batchCase) error {
+	r.Eval()
+	creators, named, extra := creatorsFor(c.Version)
+	st := []authgen.SE{{ID: authgen.CreateID, Type: "m.room.create", StateKey: "", Sender: C, Content: `{"creator":"` + C + `","room_version":"` + c.Version + `"` + extra + `}`}}
+	for _, u := range []string{C, S, O, P} {
+		st = append(st, authgen.SE{ID: "$m" + strings.NewReplacer("@", "", ":", "_", ".", "_").Replace(u) + strings.Repeat("m", 30), Type: "m.room.member", StateKey: u, Sender: u, Content: `{"membership":"join"}`})
+	}
+	st = append(st, authgen.SE{ID: "$pl" + strings.Repeat("p", 41), Type: "m.room.power_levels", StateKey: "", Sender: C, Content: c.Old.json()})
+	sc := authgen.Scenario{Version: c.Version, State: st}
+	pdus, err := sc.StatePDUs()
+	if err != nil {
+		return fmt.Errorf("harness: %v", err)
+	}
+	prov, err := gmsl.NewAuthEvents(pdus)
+	if err != nil {
+		return fmt.Errorf("harness: %v", err)
+	}
+	room, err := spec.NewRoomID(authgen.RoomOf(c.Version))
+	if err != nil {
+		return fmt.Errorf("harness: %v", err)
+	}
+	checker := gmsl.VerifNewAllower(prov, authgen.UID, *room)
+	current := c.Old
+	var hist []string
+	for i, stp := range c.Steps {
+		sc.Event = authgen.Ev{Type: "m.room.power_levels", StateKey: evgen.S(""), Sender: stp.Sender, Content: stp.New.json(), Prev: []string{"$p" + strings.Repeat("x", 42)}}
+		id := fmt.Sprintf("$step%d%s", i, strings.Repeat("s", 37))
+		if refversions.Get(c.Version).EventFormat == 1 {
+			id = fmt.Sprintf("$step%d:a.org", i)
+		}
+		ev, err := sc.EventPDUWithID(id)
+		if err != nil {
+			return fmt.Errorf("harness: %v", err)
+		}
+		var verdict error
+		if p, msg := harness.Try(func() {
+			checker.Update(prov)
+			verdict = checker.Allowed(ev)
+		}); p {
+			return fmt.Errorf("reused checker panics: %s", msg)
+		}
+		if verdict != nil {
+			hist = append(hist, fmt.Sprintf("%s %s refused", stp.Sender, stp.New.json()))
+			continue
+		}
+		r.Outcome("batch-accepted")
+		old, nw := effective(current, false, creators), effective(stp.New, false, creators)
+		if s := invariant(c.Version, old, nw, stp.Sender, named); s != "" {
+			return fmt.Errorf("room version %s, one checker reused over a batch (earlier: %v): power-levels event by %s (level %d) accepted although %s; current %s, proposed %s", c.Version, hist, stp.Sender, old.user(stp.Sender), s, current.json(), stp.New.json())
+		}
+		hist = append(hist, fmt.Sprintf("%s %s accepted", stp.Sender, stp.New.json()))
+		if c.Apply {
+			if err := prov.AddEvent(ev); err != nil {
+				return fmt.Errorf("harness: %v", err)
+			}
+			current = stp.New
+		}
+	}
+	return nil
+}
+
 func oldJSON(c stepCase) string {
 	if c.OldNone {
 		return "(no power-levels event)"
@@ -299,8 +377,71 @@ func run(r *harness.Run) {
 		_, err := runStep(r, c)
 		return err
 	})
+	r.OnReplay("batch", func(raw json.RawMessage) error {
+		var c batchCase
+		if err := json.Unmarshal(raw, &c); err != nil {
+			return err
+		}
+		return runBatch(r, c)
+	})
 	if r.Replaying() {
 		return
+	}
+	// (iii) batches through one reused checker: every sequence of <= 3 proposals from a menu of 11 (additions, removals and
+	// changes below / at / above the proposer's level, by three users), with and without applying accepted events
+	{
+		old := pl{"users/" + S: 50, "users/" + O: 40, "users/" + P: 60, "events/m.x": 50}
+		with := func(kv ...interface{}) pl {
+			n := old.clone()
+			for i := 0; i+1 < len(kv); i += 2 {
+				if v := kv[i+1].(int); v < 0 {
+					delete(n, kv[i].(string))
+				} else {
+					n[kv[i].(string)] = int64(v)
+				}
+			}
+			return n
+		}
+		menu := []batchStep{
+			{P, with("users/"+O, 60)}, {P, with("users/"+S, -1)}, {S, with("users/"+P, -1)}, {S, with("users/"+O, -1)}, {S, with("events/m.x", -1)},
+			{O, with("events/m.x", -1)}, {S, with()}, {P, with("events/m.y", 60)}, {S, with("users/"+O, 50)}, {S, pl{"users/" + S: 50}}, {P, with("events/m.x", -1, "users/"+O, -1)},
+		}
+		var seqs [][]batchStep
+		var gen func(cur []batchStep)
+		gen = func(cur []batchStep) {
+			if len(cur) > 0 {
+				seqs = append(seqs, append([]batchStep(nil), cur...))
+			}
+			if len(cur) == 3 {
+				return
+			}
+			for _, m := range menu {
+				gen(append(cur, m))
+			}
+		}
+		gen(nil)
+		bvers := []string{"1", "6", "10", "11", "12"}
+		if r.Thorough() {
+			bvers = refversions.All()
+		}
+		type bj struct {
+			v     string
+			apply bool
+		}
+		var bjobs []bj
+		for _, v := range bvers {
+			bjobs = append(bjobs, bj{v, false}, bj{v, true})
+		}
+		r.Parallel(len(bjobs), func(i int) {
+			for _, sq := range seqs {
+				c := batchCase{Version: bjobs[i].v, Old: old, Steps: sq, Apply: bjobs[i].apply}
+				if err := runBatch(r, c); err != nil {
+					r.Violation(fmt.Sprintf("batch:%s:%v:%d", c.Version, c.Apply, len(sq)), err.Error(), "batch", c)
+					return
+				}
+			}
+		})
+		r.Count("batches_through_one_checker", int64(len(seqs)*len(bjobs)))
 	}
 	K := r.Pick(2, 3)
 	vals := []int64{-1, L - 1, L, L + 1} // -1 = absent
